@@ -69,6 +69,10 @@ def gen_case(rng, tier):
             dirs.append(d)
     names = sorted(set(names))
     rng.shuffle(names)
+    links = []
+    if names and rng.random() < 0.25:
+        for ln in rng.sample(['latest.log', 'current', 'sys.log.0', 'alias.txt'], rng.choice([1, 2])):
+            links.append([ln, rng.choice(names)])
     regs = []
     for _ in range(rng.choice([1, 1, 2, 3])):
         r = rng.random()
@@ -76,7 +80,11 @@ def gen_case(rng, tier):
             regs.append({'form': 'dir'})
         elif r < 0.75:
             regs.append({'form': 'glob', 'pattern': rng.choice(['*', '*.log*', 'sys*', '*.log',
-                                                                '*.log.?', '*.gz', 'a*', '[a-s]*'])})
+                                                                '*.log.?', '*.gz', 'a*', '[a-s]*',
+                                                                '*/', '*.log/'])})
+        elif names and rng.random() < 0.12:
+            # a file name with a trailing slash denotes nothing
+            regs.append({'form': 'glob', 'pattern': rng.choice(names) + '/'})
         elif names:
             regs.append({'form': 'file', 'name': rng.choice(names)})
         else:
@@ -87,11 +95,11 @@ def gen_case(rng, tier):
         def_of = [rng.randrange(max(1, len(regs) - 1)) for _ in regs]
     else:
         def_of = list(range(len(regs)))
-    return {'names': names, 'dirs': dirs, 'regs': regs, 'def_of': def_of,
+    return {'names': names, 'dirs': dirs, 'regs': regs, 'def_of': def_of, 'links': links,
             'spell': rng.choice([None, None, None, '//', '/./']),
             'same_tag': rng.random() < 0.25,
             'depth': rng.choice([0, 1, 2, 3, 7, 7, 9]),
-            'run_search': rng.random() < (0.2 if len(set(def_of)) < len(regs) else 0.08)}
+            'run_search': rng.random() < (0.3 if links or len(set(def_of)) < len(regs) else 0.08)}
 
 
 # ---- the harness's own reading of a name (no `re` on this path) -------------------------
@@ -162,6 +170,10 @@ def run_impl(case):
             data = f"line of {n}\nsecond\n".encode()
             with open(p, 'wb') as f:
                 f.write(gzip.compress(data) if n.endswith('.gz') else data)
+        for ln, tgt in case.get('links', []):
+            # a symbolic link to one of the files: a regular file under its own name
+            if tgt in case['names'] and ln not in case['names']:
+                os.symlink(os.path.join(d, tgt), os.path.join(d, ln))
         for n in case['dirs']:
             os.mkdir(os.path.join(d, n))
             with open(os.path.join(d, n, 'inner.log'), 'w') as f:
